@@ -17,7 +17,7 @@ use std::hash::{Hash, Hasher};
 use std::sync::atomic::{AtomicU64, Ordering as AO};
 use std::sync::Arc;
 
-const QV: [f64; 6] = [1.25, 0.8, 110.5, 7.5e-3, 2.0, 15.0];
+const QV: [f64; 12] = [1.25, 0.8, 110.5, 7.5e-3, 2.0, 15.0, 0.625, 3.5, 48.0, 1.6e-2, 9.5, 0.35];
 const GOWN: f64 = 2.5; // gradient of a quote given as a dual number w.r.t. its own variable
 
 #[derive(Clone, Debug, Serialize, Deserialize, PartialEq, Eq, Hash)]
@@ -626,6 +626,33 @@ pub fn cases(tier: Tier) -> Vec<Case> {
         let nv = if m.n == 4 { 2 } else { nvals };
         out.push(Case::Explore { market: m, nvals: nv });
     }
+    // E1, larger markets on a menu: chain, star and caterpillar on 8, 10, 11, 12, 13 currencies with quote-form
+    // patterns (all floats, all Duals, all Dual2s, a single pre-tagged dual quote at the first / middle / last position)
+    for n in [8usize, 10, 11, 12, 13] {
+        let m = n - 1;
+        let shapes: Vec<Vec<(usize, usize)>> = vec![
+            (0..m).map(|i| if i % 2 == 0 { (i, i + 1) } else { (i + 1, i) }).collect(),
+            (0..m).map(|i| if i % 3 == 0 { (i + 1, 0) } else { (0, i + 1) }).collect(),
+            (0..m).map(|i| if i < m / 2 { (i, i + 1) } else { (i - m / 2, i + 1) }).collect(),
+        ];
+        for q in shapes {
+            let mut patterns: Vec<Vec<u8>> = vec![vec![0; m], vec![1; m], vec![2; m]];
+            for pos in [0, m / 2, m - 1] {
+                for f in [1u8, 2u8] {
+                    let mut p = vec![0u8; m];
+                    p[pos] = f;
+                    patterns.push(p);
+                }
+            }
+            for forms in patterns {
+                for base in [None, Some(n - 1)] {
+                    for order in [1u8, 2u8] {
+                        out.push(Case::Sens { n, quotes: q.clone(), forms: forms.clone(), base, order });
+                    }
+                }
+            }
+        }
+    }
     // E1
     let nmax = tier.pick(4, 5);
     for n in 2..=nmax {
@@ -684,7 +711,8 @@ pub fn run(ctx: &Ctx, replay_file: Option<String>) -> ! {
          of every length over this action menu are covered. E1 (sensitivities): every labelled tree on 2..4 (5) \
          currencies x orientation x quote form (float / Dual / Dual2 with own variable) x base x order 1/2: variable \
          names fx_<pair> or the quote's own; d r/d q = s r/q on the path and 0 off it; second derivatives \
-         s(s-1) r/q^2 and s_e s_f r/(q_e q_f); read back by name.",
+         s(s-1) r/q^2 and s_e s_f r/(q_e q_f); read back by name. Larger markets on a menu: chain, star and caterpillar on 8, 10, 11, 12, 13 currencies with \
+         quote-form patterns (all floats / Duals / Dual2s, one pre-tagged dual quote at the first, middle or last position).",
         json!({"markets_explored": nexp, "fixpoints_reached": fix, "sensitivity_cases": cs.len() as u64 - nexp}),
     );
     meta.level = "model_checking";
